@@ -55,12 +55,12 @@ MCClock == %s
 ''' % (name, ', '.join(modefiles), ', '.join(fset(f) for f in initfiles), ', '.join(initreports), pts(starts), pts(clock))
 
 
-def cfg(props=True, W=0, collectors=(), setmodes=(), setpads=('',), setdays=(), xs=(0,), rates=(0,), maxrun=1, maxset=0, maxedit=0, maxcollect=0, maxadv=0):
+def cfg(props=True, W=0, collectors=(), longprogs=(), maxproc=0, setmodes=(), setpads=('',), setdays=(), xs=(0,), rates=(0,), maxrun=1, maxset=0, maxedit=0, maxcollect=0, maxadv=0):
     t = 'SPECIFICATION Spec\nCHECK_DEADLOCK FALSE\n'
     if props:
         t += ('INVARIANTS TypeOK OneRequestPerWeek RequestsRecorded\n'
-              'PROPERTIES RequestOnlyWhenOn UploadableOnlyIf SentOnlyIf OffChangesNothing OtherBehavesLocal SetGet NoNewReadyLeftBehind\n')
-    t += 'CONSTANTS\n W = %d\n Collectors = {%s}\n' % (W, ', '.join('"%s"' % c for c in collectors))
+              'PROPERTIES RequestOnlyWhenOn UploadableOnlyIf SentOnlyIf OffChangesNothing OtherBehavesLocal SetGet NoNewReadyLeftBehind DisabledStaysSilent NoFileBornUnderOff\n')
+    t += 'CONSTANTS\n W = %d\n Collectors = {%s}\n LongProgs = {%s}\n MaxProc = %d\n' % (W, ', '.join('"%s"' % c for c in collectors), ', '.join('"%s"' % c for c in longprogs), maxproc)
     t += ' ModeFiles <- MCModeFiles\n InitFiles <- MCInitFiles\n InitReports <- MCInitReports\n Starts <- MCStarts\n ClockPoints <- MCClock\n'
     t += ' SetModes = {%s}\n SetPads = {%s}\n SetDays = %s\n Xs = %s\n Rates = %s\n' % (', '.join(tlaval.to_tla(m) for m in setmodes), ', '.join(tlaval.to_tla(m) for m in setpads),
                                                                        iset(setdays), iset(xs), iset(rates))
@@ -71,6 +71,7 @@ def cfg(props=True, W=0, collectors=(), setmodes=(), setpads=('',), setdays=(), 
 MODES3 = ['on', 'off', 'local']
 PADS = ['', 'lead', 'trail', 'tab', 'nl', 'crlf', 'both']     # ModeFile.tla, Pads
 NOINTENT = {'k': 'none', 'w': '', 'd': NODATE, 'pad': False}
+NOPROC = {'st': 'none', 'p': '', 'b': -1, 'e': -1}
 OTHERS = ['ON', 'onn', 'of', 'Local', 'true']
 ALL_DATES = [NODATE, BADDATE, E - 8, E - 7, E - 6, E - 4, E - 3, E - 2, E - 1, E, E + 1, E + 6, E + 7, E + 8]
 ALL_STARTS = [(E - 1, 86399), (E, 0), (E, 1), (E + 1, 0), (E + 6, 86399), (E + 7, 1), (E + 20, 86399), (E + 21, 0), (E + 21, 1), (E + 22, 0), (E + 28, 1)]
@@ -111,7 +112,8 @@ def state_py(st):
     return {'modeFile': mf_py(st['modeFile']), 'intent': mf_py(st['intent']) if 'intent' in st else dict(NOINTENT),
             'day': st['day'], 'tod': st['tod'], 'files': files_py(st['files']),
             'local': sorted(st['local']), 'ready': sorted(st['ready']), 'uploaded': sorted(st['uploaded']),
-            'requests': sorted(({'wk': r['wk'], 'run': r['run']} for r in st.get('requests', [])), key=lambda r: (r['run'], r['wk']))}
+            'requests': sorted(({'wk': r['wk'], 'run': r['run']} for r in st.get('requests', [])), key=lambda r: (r['run'], r['wk'])),
+            'proc': {'st': st['proc']['st'], 'p': st['proc']['f']['p'], 'b': st['proc']['f']['b'], 'e': st['proc']['f']['e']} if 'proc' in st else dict(NOPROC)}
 
 
 def act_py(a):
@@ -122,7 +124,7 @@ def norm_obs_state(s):
     return {'modeFile': s['modeFile'], 'intent': s.get('intent', NOINTENT), 'day': s['day'], 'tod': s['tod'],
             'files': sorted(s['files'], key=lambda f: (f['p'], f['b'], f['e'])),
             'local': sorted(s['local']), 'ready': sorted(s['ready']), 'uploaded': sorted(s['uploaded']),
-            'requests': sorted(s['requests'], key=lambda r: (r['run'], r['wk']))}
+            'requests': sorted(s['requests'], key=lambda r: (r['run'], r['wk'])), 'proc': s.get('proc', NOPROC)}
 
 
 def shifts(ctx, n):
@@ -143,7 +145,12 @@ def run(ctx):
         'mode arguments given to SetMode are the three modes, clearly invalid words, and both with white space around them (a padded valid '
         'mode may be rejected or taken without its padding); what follows an accepted SetMode is judged by the mode that was set; non-UTC '
         'as-of times are not generated; SetMode on an unwritable (directory) mode file is not generated',
-        'the mode does not change while a program or an uploader runs (mode changes happen between runs)',
+        'the library consults the mode when a process opens its counter file and at every rotation (Open / rotate1; no document promises more): '
+        'one long-running process is driven through open, increments, mode changes and rotations past the recorded end, and once it has seen the '
+        'mode off nothing it rotates or increments may reach the disk; increments made between the user turning telemetry off and the next '
+        'rotation, into the file the process already held, are not generated and not judged; that a disabled process stays disabled after the '
+        'mode is turned on again is the specification\'s (and the code\'s) choice, a deviation there is a divergence, not a violation; the mode '
+        'does not change while an uploader runs',
         'every count file holds at least one counter; ready/uploaded report names are well-formed dates; the server answers 200 '
         '(other replies: C08); sample rates are 0 or positive',
         'an uploader that makes LESS uploadable than the property allows (or builds no report in mode on) is reported as a '
@@ -172,6 +179,13 @@ def run(ctx):
     r = ctx.tlc('MCConsentHist', files={'MCConsentHist.tla': m}, cfg_text=hcfg, label='Consent-hist', timeout=3000)
     if not r.ok:
         raise Infra('Consent.tla (histories) violates its own %s %s\n%s' % (r.error, r.error_name, r.out[-3000:]))
+    # one long-running counting process interleaved with mode changes and the clock: exhaustive, model only
+    m = mc('MCConsentProc', ['Absent', mf_tla('text', 'on', B - 2), mf_tla('text', 'off'), mf_tla('text', 'local')], [[]], [rep([], [], [])], [(B, 1)], hist_clock)
+    pcfg = cfg(W=6, longprogs=('lp',), maxproc=4 if th else 3, setmodes=('on', 'off', 'local'), setdays=(B + 1,), xs=(0,), rates=(0,),
+               maxrun=1, maxset=2, maxedit=1 if th else 0, maxadv=3)
+    r = ctx.tlc('MCConsentProc', files={'MCConsentProc.tla': m}, cfg_text=pcfg, label='Consent-proc', timeout=3000)
+    if not r.ok:
+        raise Infra('Consent.tla (long-running process) violates its own %s %s\n%s' % (r.error, r.error_name, r.out[-3000:]))
 
     # ---- 3. tables that are replayed completely (model -> code) ----------------------
     scenarios = []
@@ -225,6 +239,25 @@ def run(ctx):
                                             {'a': {'op': 'run', 'a': '', 'p': '', 'n1': 256, 'n2': 0, 'ok': True}, 'modeFile': ini_mf, 'day': E + 1, 'tod': 1},
                                             {'a': {'op': 'advance', 'a': '', 'p': '', 'n1': 0, 'n2': 0, 'ok': True}, 'modeFile': ini_mf, 'day': E + 9, 'tod': 1},
                                             {'a': {'op': 'run', 'a': '', 'p': '', 'n1': 256, 'n2': 0, 'ok': True}, 'modeFile': ini_mf, 'day': E + 9, 'tod': 1}]})
+    # directed histories of ONE long-running process (open under local/on, the user turns telemetry off, the rotation timer
+    # fires after the recorded end, more increments; then on again)
+    def stp(op, a='', n1=0, day=0, tod=1):
+        return {'a': {'op': op, 'a': a, 'p': '', 'n1': n1, 'n2': 0, 'ok': True}, 'modeFile': dict(NOINTENT), 'day': day, 'tod': tod}
+    for start in ('local', 'on'):
+        for k, gap in enumerate((8, 1, 7, 15)):
+            for variant in range(3):
+                sid = len(scenarios)
+                d0 = E + 1
+                steps = [stp('set', start, d0 - 5, d0), stp('protate', 'lp', 0, d0), stp('pinc', 'lp', 0, d0), stp('set', 'off', d0, d0)]
+                if variant == 1:
+                    steps += [stp('set', start, d0, d0)]           # back on before the rotation: the process goes on counting
+                steps += [stp('advance', '', 0, d0 + gap), stp('protate', 'lp', 0, d0 + gap), stp('pinc', 'lp', 0, d0 + gap)]
+                if variant == 2:
+                    steps += [stp('set', 'on', d0 + gap, d0 + gap), stp('advance', '', 0, d0 + gap + 2), stp('protate', 'lp', 0, d0 + gap + 2), stp('pinc', 'lp', 0, d0 + gap + 2)]
+                steps += [stp('advance', '', 0, d0 + gap + 12), stp('run', '', 256, d0 + gap + 12)]
+                scenarios.append({'id': sid, 'src': 'directed-proc', 'w': (ctx.seed + sid) % 7, 'shift': 0, 'variant': sid, 'child': False,
+                                  'init': {'modeFile': {'k': 'absent', 'w': '', 'd': NODATE, 'pad': False}, 'intent': dict(NOINTENT), 'day': d0, 'tod': 1, 'files': [],
+                                           'local': [], 'ready': [], 'uploaded': [], 'requests': [], 'proc': dict(NOPROC)}, 'steps': steps})
     ntab = len(scenarios)
     sh = shifts(ctx, 16)
     for sc in scenarios:
@@ -237,13 +270,10 @@ def run(ctx):
            [rep([], [], []), rep([], [B + 1], []), rep([B + 2], [B + 9], [B - 6])], [(B, 1), (B + 1, 0)], sim_clock)
     nwalk = ctx.pick(160, 4200)
     behaviours = 0
-    for W in ((ctx.seed % 7, (ctx.seed + 3) % 7) if not th else tuple(range(7))):
-        scfg = cfg(props=False, W=W, collectors=('c1', 'c2'), setmodes=('on', 'off', 'local', 'auto', '', 'On'), setpads=PADS,
-                   setdays=(B - 1, B, B + 1, B + 2, B + 8, B + 9, B + 20), xs=(0, 300, 512, 513, 1023), rates=(0, 512, 1024),
-                   maxrun=4, maxset=3, maxedit=2, maxcollect=4, maxadv=6)
-        per = nwalk // (2 if not th else 7)
-        r = ctx.tlc('MCConsentSim', files={'MCConsentSim.tla': m}, cfg_text=scfg, simulate={'num': per, 'file': True}, depth=ctx.pick(16, 20),
-                    label='Consent-sim-W%d' % W, count=False, seed=ctx.seed * 31 + W)
+    def walks(label, modname, modtext, scfg, W, num, depth):
+        nonlocal behaviours
+        r = ctx.tlc(modname, files={modname + '.tla': modtext}, cfg_text=scfg, simulate={'num': num, 'file': True}, depth=depth,
+                    label=label, count=False, seed=ctx.seed * 31 + W)
         if r.error:
             raise Infra('Consent simulate: %s\n%s' % (r.error, r.out[-2000:]))
         for fn in ctx.sim_files(r):
@@ -259,6 +289,19 @@ def run(ctx):
                 expected[(sid, i)] = state_py(st)
             scenarios.append(sc)
             behaviours += 1
+
+    for W in ((ctx.seed % 7, (ctx.seed + 3) % 7) if not th else tuple(range(7))):
+        scfg = cfg(props=False, W=W, collectors=('c1', 'c2'), longprogs=('lp',), maxproc=5, setmodes=('on', 'off', 'local', 'auto', '', 'On'), setpads=PADS,
+                   setdays=(B - 1, B, B + 1, B + 2, B + 8, B + 9, B + 20), xs=(0, 300, 512, 513, 1023), rates=(0, 512, 1024),
+                   maxrun=4, maxset=3, maxedit=2, maxcollect=4, maxadv=6)
+        walks('Consent-sim-W%d' % W, 'MCConsentSim', m, scfg, W, nwalk // (2 if not th else 7), ctx.pick(16, 20))
+    # walks of the long-running process alone with mode changes and the clock (so that open -> off -> rotation is frequent)
+    mp = mc('MCConsentSimProc', ['Absent', mf_tla('text', 'on', B - 2), mf_tla('text', 'off'), mf_tla('text', 'local', B), mf_tla('text', 'ON')], [[]], [rep([], [], [])],
+            [(B, 1), (B + 1, 0)], sim_clock)
+    for W in ((ctx.seed + 1) % 7,) if not th else (1, 4, 6):
+        pcfg2 = cfg(props=False, W=W, longprogs=('lp',), maxproc=7, setmodes=('on', 'off', 'local'), setpads=('', 'nl'), setdays=(B, B + 2, B + 9), xs=(0, 600), rates=(0, 512),
+                    maxrun=2, maxset=4, maxedit=1, maxadv=5)
+        walks('Consent-simproc-W%d' % W, 'MCConsentSimProc', mp, pcfg2, W, ctx.pick(60, 600), ctx.pick(16, 20))
     ctx.log('behaviours: %d' % behaviours)
     if behaviours == 0:
         raise Infra('no behaviours from TLC simulate')
